@@ -12,7 +12,7 @@ VARIABLES mode, n
 Pfx(k) == RE.prefix[k]
 A == LAtom("", "a")
 AtomsL == {LAtom("", "a"), LAtom("", "b1"), LAtom("", "go-to"), LAtom(Pfx("VariableIndependent"), "x"), LAtom(Pfx("VariableDependent"), "y1"),
-           LAtom("", "名２"), LAtom("", "x²"), LAtom(Pfx("Operator"), "n٣"), LAtom(Pfx("VariableQuery"), "½"), LAtom("", "é"), LAtom("", Rep("ab", 20)),
+           LAtom("", "名２"), LAtom("", "x²"), LAtom(Pfx("Operator"), "n٣"), LAtom(Pfx("VariableQuery"), "½"), LAtom("", "é"), LAtom("", Rep("ab", 20)), LAtom("", Rep("name", 20)), LAtom(Pfx("Operator"), Rep("x", 65)),
            LAtom(Pfx("Interval"), "12345678901234567890123"), LAtom(Pfx("VariableIndependent"), "1"),
            LAtom(Pfx("VariableQuery"), "z"), LAtom(Pfx("Interval"), "7"), LAtom(Pfx("Operator"), "op"), LAtom(Pfx("Placeholder"), "")}
 Pool2 == {A, LAtom(Pfx("VariableIndependent"), "x")}
